@@ -353,7 +353,58 @@ def area_play(ctx, b):
     ctx.count('translated_play_calls', len(b.ops))
 
 
-AREAS = {'score': area_score, 'imps': area_imps, 'notation': area_notation, 'auction': area_auction, 'play': area_play}
+def enc_hands_obj(h):
+    """a `Hands` instance as an instance (py_common.enc renders it as the dict the playing phase is given)"""
+    return 'oHands{' + ''.join(f'{k}={PC.enc(getattr(h, k))}' for k in ('north', 'east', 'south', 'west')) + '}'
+
+
+def area_hands(ctx, b):
+    from bridge_env import Card, Hands, Player
+    rng = ctx.rng
+    n = 40 if ctx.quick else 400
+    deck = [Card.int_to_card(i) for i in range(52)]
+
+    def add(cls_meth, args_text, fn, with_self=None):
+        b.ops.append(f'Y.meth Hands {cls_meth} ' + ' '.join(args_text))
+        out = PC.outcome(fn)
+        b.exp.append((out, None))
+        b.info.append('Hands.' + cls_meth)
+    for k in range(n):
+        cards = deck[:]
+        rng.shuffle(cards)
+        hs = [set(cards[i * 13:(i + 1) * 13]) for i in range(4)]
+        kind = rng.random()
+        if kind < 0.25:
+            for i in range(4):
+                if rng.random() < 0.4:
+                    hs[i] = set()                        # unknown hand
+        elif kind < 0.35:
+            # long suits and voids: sort the pack by suit before cutting
+            cards.sort(key=int)
+            rot = rng.randrange(52)
+            cards = cards[rot:] + cards[:rot]
+            hs = [set(cards[i * 13:(i + 1) * 13]) for i in range(4)]
+        h = Hands(*[set(x) for x in hs])
+        ht = enc_hands_obj(h)
+        for p in Player:
+            add('to_pbn', [ht, PC.enc(p)], lambda p=p: h.to_pbn(p))
+            add('__getitem__', [ht, PC.enc(p)], lambda p=p: h[p])
+        add('to_pbn', [ht], lambda: h.to_pbn())
+        add('to_binary', [ht], lambda: h.to_binary())
+        add('to_dict', [ht], lambda: h.to_dict())
+        for x in hs[:2]:
+            add('_convert_hand_to_pbn', [PC.enc(x)], lambda x=x: Hands._convert_hand_to_pbn(x))
+        binh = h.to_binary()
+        add('convert_binary', ['cHands;', PC.enc(binh)], lambda: Hands.convert_binary(binh))
+        if k % 5 == 0:
+            # a hand of the wrong size trips the assertion
+            x = set(rng.sample(deck, rng.choice([1, 5, 12, 14])))
+            add('_convert_hand_to_pbn', [PC.enc(x)], lambda x=x: Hands._convert_hand_to_pbn(x))
+            add('__getitem__', [ht, 'N'], lambda: h[None])
+    ctx.count('translated_hands_calls', len(b.ops))
+
+
+AREAS = {'hands': area_hands, 'score': area_score, 'imps': area_imps, 'notation': area_notation, 'auction': area_auction, 'play': area_play}
 # areas whose input set does not depend on the shard: only shard 0 runs them
 UNSHARDED = {'score', 'imps', 'notation'}
 
